@@ -459,8 +459,44 @@ fn run_sinkscan(job: &Value) -> Value {
         };
         short.push(json!({"pattern": name, "verdict": verdict, "calls": sink.calls, "bytes": sink.data.len()}));
     }
+    // sinks that run full: room for the text up to (and a little into) write call k, for the k of the scan, and for every byte
+    // count of the last 64; whatever does not fit must be reported (write_all turns the Ok(0) into WriteZero)
+    let total = reference.data.len();
+    let mut capacities: Vec<usize> = Vec::new();
+    for &k in &ks {
+        let a = reference.offsets[k];
+        let b = reference.offsets.get(k + 1).copied().unwrap_or(total);
+        capacities.push(a);
+        if b - a > 1 {
+            capacities.push(a + (b - a) / 2);
+        }
+    }
+    capacities.extend(total.saturating_sub(64)..total);
+    capacities.sort_unstable();
+    capacities.dedup();
+    let mut full: BTreeMap<String, u64> = BTreeMap::new();
+    let mut full_anomalies: Vec<Value> = Vec::new();
+    for &cap in capacities.iter().filter(|c| **c < total) {
+        let mut sink = sinks::FullSink::new(cap);
+        let r = catch_unwind(AssertUnwindSafe(|| doc.write_xml(&mut sink)));
+        let verdict = match &r {
+            Err(_) => {
+                let _ = take_panic();
+                "panic"
+            }
+            Ok(Ok(())) => "false-ok",
+            Ok(Err(e)) => if format!("{e:?}").starts_with("Io") { "io-error" } else { "wrong-error" },
+        };
+        *full.entry(verdict.to_string()).or_default() += 1;
+        if verdict != "io-error" && full_anomalies.len() < 50 {
+            full_anomalies.push(json!({"capacity": cap, "missing_bytes": total - cap, "verdict": verdict, "written": sink.data.len(),
+                "zero_writes": sink.zero_writes,
+                "tail": String::from_utf8_lossy(&reference.data[cap.saturating_sub(60)..cap]).to_string()}));
+        }
+    }
     json!({"status": "scanned", "write_calls": n, "bytes": reference.data.len(), "ks": ks.len(), "exhaustive": exhaustive,
         "injections": injections, "outcomes": outcomes, "anomalies": anomalies, "short": short,
+        "full": full, "full_anomalies": full_anomalies,
         "distinct_chunks": distinct_chunks.len()})
 }
 
